@@ -111,7 +111,12 @@ func workerMain(t *testing.T) {
 	defer out.Flush()
 	start := time.Now()
 	unknownSigs := map[string]bool{}
-	run := func(c *Case) *Outcome { return ck.Run(t, c) }
+	run := func(c *Case) *Outcome {
+		if ck.Isolated {
+			return runIsolated(os.Args[0], c)
+		}
+		return ck.Run(t, c)
+	}
 	for i := k; i < maxRuns; i += nw {
 		if time.Since(start) > budget {
 			break
@@ -228,6 +233,8 @@ func oneMain(t *testing.T) {
 		fmt.Printf("V %s\n", vb)
 	}
 	fmt.Printf("DIGEST %s\n", o.Digest)
+	meta, _ := json.Marshal(map[string]interface{}{"stats": o.Stats, "sim_ms": o.SimMs, "fp": o.Fingerprint, "nontrivial": o.Nontrivial, "order": o.OrderHash, "state": o.StateHash})
+	fmt.Printf("META %s\n", meta)
 	if os.Getenv("VERIF_HISTORY") != "" {
 		for _, h := range o.History {
 			fmt.Printf("H %s\n", h)
@@ -314,6 +321,21 @@ func runIsolated(bin string, c *Case) *Outcome {
 			o.Digest = line[7:]
 		} else if strings.HasPrefix(line, "H ") {
 			o.History = append(o.History, line[2:])
+		} else if strings.HasPrefix(line, "META ") {
+			var m struct {
+				Stats      map[string]int64 `json:"stats"`
+				SimMs      int64            `json:"sim_ms"`
+				FP         string           `json:"fp"`
+				Nontrivial bool             `json:"nontrivial"`
+				Order      string           `json:"order"`
+				State      string           `json:"state"`
+			}
+			if json.Unmarshal([]byte(line[5:]), &m) == nil {
+				for k, v := range m.Stats {
+					o.Stats[k] += v
+				}
+				o.SimMs, o.Fingerprint, o.Nontrivial, o.OrderHash, o.StateHash = m.SimMs, m.FP, m.Nontrivial, m.Order, m.State
+			}
 		}
 	}
 	if err != nil {
